@@ -7,18 +7,28 @@ MODULES = ["TinsModel.Props.C17", "TinsModel.Props.Limits.C17"]   # + the consta
 AUDIT = ["Audit/C17.lean", "Audit/LimitsC17.lean"]
 LEVEL = "proof"
 MANIFEST = dict(
-    text="Lean 4 theorems over a code-shaped executable model of BaseSniffer::next_packet / sniff_loop / SnifferIterator, "
-         "the per-link-type handlers, Timestamp and PacketWriter::write on top of a model of the pcap savefile format "
-         "(dispatch table, catch clauses, writer link types and snapshot length regenerated from the source on every run), "
-         "tied to the code by a differential harness that writes real capture files with PacketWriter and reads them with "
-         "FileSniffer (next_packet, sniff_loop, range-for; pcap_loop, pcap_dispatch and an exact-size-copy sniffing method "
-         "under ASan/UBSan; with and without BPF filters, compared with pcap_offline_filter called directly) and by a spec "
-         "oracle (frames_out = [f | filter(f) and parses(f)], byte-identical, timestamps, clean end, no escape, no leak).",
-    note="Trusted: Lean kernel + standard axioms; libpcap's savefile reader/writer and BPF engine (modelled as the assumed "
-         "environment, exercised not proved); the dissectors are an abstract oracle here (their outcome on each frame is "
-         "obtained by calling the constructors directly) — their correctness is C01/C03's subject; harness + generators.",
-    technique="Lean 4 proof (induction over the frame list, refinement loop -> filterMap, encode/decode round trip) + "
-              "model/implementation correspondence on real pcap files",
+    text="Lean 4 theorems over code-shaped executable models of (a) BaseSniffer as a state machine over ANY sequence of "
+         "public calls on one live sniffer (next_packet, sniff_loop, iteration, set_extract_raw_pdus, set_filter valid / "
+         "empty / not compiling, set_pcap_sniffing_method, stop_sniff also from inside the functor, move construction / "
+         "assignment mid-capture, link_type), the per-link-type handlers and Timestamp, (b) PacketWriter as a state machine "
+         "over any interleaving of write(PDU&) / write(T&) / write(Packet&) / write(begin,end) and moves of the live writer, "
+         "on top of a model of the pcap savefile format whose assumed facts are named hypotheses (SavefileFacts, ReadFacts); "
+         "dispatch table, catch clauses, writer link types and snapshot length are regenerated from the source on every run. "
+         "Tied to the code by a differential harness that writes real capture files with PacketWriter through every write "
+         "call (wall-clock stamps checked against two gettimeofday readings, whole file compared byte for byte with the "
+         "model's encodeFile for every link type and for stamps at the 32-bit boundaries) and reads them with FileSniffer "
+         "through single reads and scripted sessions of calls (pcap_loop, pcap_dispatch and an exact-size-copy sniffing method "
+         "under ASan/UBSan; BPF filters compared with pcap_offline_filter called directly) and by a spec oracle evaluated "
+         "frame by frame under the raw mode and filter in force (frames_out, byte-identical, timestamps, sticky clean end, "
+         "stop_sniff interrupts once, no escape but the functor's own exceptions, no leak).",
+    note="Trusted: Lean kernel + standard axioms; libpcap's savefile reader/writer and BPF engine (the facts assumed about "
+         "them are the structures SavefileFacts / ReadFacts; the byte-level model satisfying them is compared with the real "
+         "library on every file and every frame, not proved about libpcap); the dissectors are an abstract oracle here (their "
+         "outcome on each frame is obtained by calling the constructors directly) — their correctness is C01/C03's subject; "
+         "harness + generators.",
+    technique="Lean 4 proof (induction over call sequences with a ghost log of the frames each next_packet moved past and "
+              "the configuration in force, refinement loop -> filterMap, encode/decode round trip over named libpcap "
+              "hypotheses) + model/implementation correspondence on real pcap files and scripted API sessions",
     design="DESIGN.md §6 C17")
 MANIFEST["note"] += (" Constants and limits of the C++ source that the model restates (translator/gen_limits.py -> Gen/Limits.lean: "
                      "compiled probe + preprocessed function bodies at named anchors) are tied to the model's numerals by the "
@@ -662,26 +672,44 @@ def run(chk):
             chk.violation("proof obligation no longer checks: " + p[:1500], ["theorem-or-audit-failure", p[:4000]], nofail=True)
     chk.cov["rule"] = ("case = one capture file written with PacketWriter (link type token, frames = well-formed packets of "
                        "the link type / mutations / arbitrary bytes incl. empty, timestamps incl. carries and 32-bit "
-                       "overflow) then read back through next_packet / sniff_loop / range-for with scripted functors, "
-                       "filters, truncated files; distinct_nontrivial counts distinct (operation, implementation result) pairs")
+                       "overflow; written through write(Packet&), wall-clock write(PDU&) / write(T&), write(begin,end) over five "
+                       "containers, with moves of the live writer) then read back through next_packet / sniff_loop / range-for "
+                       "with scripted functors, filters, truncated files, and through scripted sessions of calls on one live "
+                       "sniffer; distinct_nontrivial counts distinct (operation, implementation result) pairs")
     chk.extra["frames_excluded_because_direct_dissection_failed"] = excluded
     chk.extra["filters_per_dlt"] = {str(k): len(v) for k, v in valid_filters.items()}
     chk.extra["modelled_not_proved"] = [
-        "libpcap savefile reader/writer and BPF engine (assumed environment; compared on every frame)",
+        "libpcap savefile reader/writer and BPF engine: assumed environment, stated as SavefileFacts (dump/open round trip) "
+        "and ReadFacts R1-R4 (one call of a sniffing method: break_loop, end of file, filter rejects, filter accepts); the "
+        "byte-level model is proved to satisfy them and is compared with libpcap on every file (whole-file size + hash "
+        "against encodeFile, every link type, stamps at the 32-bit boundaries) and every frame",
         "dissector outcomes are an oracle obtained from direct constructor calls (subject of C01/C03)",
-        "exception unwinding through libpcap's C frames (observed, not modelled)",
-        "PacketWriter::write(PDU&) with the wall-clock time stamp (not exercised)"]
+        "exception unwinding through libpcap's C frames (observed, not modelled; a session is abandoned after one)",
+        "the value of the wall clock: write(PDU&) / write(T&) / write(begin,end) take the gettimeofday reading as an input of "
+        "the model; the harness checks that the stored stamp lies between two readings taken around the call and then "
+        "replaces it by the scripted one so that the file stays deterministic",
+        "write(begin,end) over a range of Packet objects does not compile (dereference_until_pdu has no overload for "
+        "Packet): the API offers it for PDUs and (smart) pointers only, which is what is exercised"]
+    chk.extra["theorems_sessions"] = [
+        "session_filtermap", "session_end_sticky", "stop_sniff_interrupts_once", "sniff_loop_only_functor_exceptions",
+        "sniffer_move", "writer_session_roundtrip", "writer_session_roundtrip_model", "packet_stamp_roundtrip",
+        "readFacts_readOne", "readFacts_unique", "modelSavefile_facts"]
     chk.assumptions += [
         "libpcap 1.10 savefile semantics: 32-bit signed time fields, frames longer than the declared snapshot length "
         "are cut, capture lengths above 262144 and short records end the file with an error",
-        "a sniffing method returns >= 0 after delivering one frame or at the end of file, < 0 on error",
+        "a sniffing method called with cnt = 1 on a savefile handle behaves as ReadFacts R1-R4 say: break_loop set -> cleared, "
+        "nothing read, handler not called (pcap_loop / pcap_dispatch return -2, the harness's pcap_next_ex method 0); end of "
+        "file -> 0 (or -1 once after a broken record) without calling the handler; frames the installed program rejects are "
+        "dropped within the call; an accepted frame is handed to the handler once and >= 0 comes back",
+        "pcap_setfilter replaces the installed program; pcap_compile of an expression that does not compile returns -1 and "
+        "changes nothing; the empty expression compiles to accept-all",
         "time stamps with seconds >= 2^31 or negative are outside the file format; their round trip is not demanded",
         "Ethernet length/type values 1501..2047 and frames shorter than 14 bytes: the oracle accepts either dissector",
         "libpcap compiles some expressions differently for a savefile handle than for a pcap_open_dead handle (e.g. "
         "`ip6` on DLT_NULL checks the BSD AF_INET6 values for a savefile, this host's value otherwise): the sniffer's "
         "filter is compared with a program compiled on a savefile handle, OfflinePacketFilter with one compiled on a dead handle",
-        "PacketWriter move assignment / move construction and FileSniffer move construction are exercised by the "
-        "correspondence (rotate, mv=1) but have no Lean theorem"]
+        "configuration calls a functor makes on the sniffer are modelled as taking effect before the functor returns or "
+        "throws (the scripted functor of the harness makes them first)"]
     chk.trusted += ["correspondence harness harness/c17_capture.cpp + generators in checks/C17.py",
                     "translator/gen_c17.py (preprocessor + regular expressions over src/sniffer.cpp and the writer headers)",
                     "g++ 12 / ASan+UBSan build of the repo's working tree; libpcap 1.10.3"]
